@@ -374,11 +374,30 @@ func cmdCheck(id, tier string) int {
 		samples = th
 	}
 	var ncases []nativeCase
+	var raceCands []int
 	for _, i := range chosen {
+		if cands[i].V.PathTag == "race" {
+			raceCands = append(raceCands, i)
+		}
 		ncases = append(ncases, nativeCase{Harness: cands[i].It.Harness, Cfg: cands[i].It.Cfg, Inputs: cands[i].V.Inputs})
+	}
+	// schedule-dependent findings: repeat the native run (a blocked release needed 289 attempts in the design probes)
+	type rep struct{ cand, from, n int }
+	var reps []rep
+	for _, i := range chosen {
+		if cands[i].V.PathTag == "stuck" {
+			reps = append(reps, rep{cand: i, n: 400})
+		}
 	}
 	for _, s := range samples {
 		ncases = append(ncases, nativeCase{Harness: s.It.Harness, Cfg: s.It.Cfg, Inputs: s.S.Inputs})
+	}
+	for k := range reps {
+		reps[k].from = len(ncases)
+		for j := 0; j < reps[k].n; j++ {
+			c := cands[reps[k].cand]
+			ncases = append(ncases, nativeCase{Harness: c.It.Harness, Cfg: c.It.Cfg, Inputs: c.V.Inputs})
+		}
 	}
 	nres, nout, err := nativeRun(ncases, false)
 	if err != nil {
@@ -390,6 +409,26 @@ func cmdCheck(id, tier string) int {
 		for k, i := range chosen {
 			r := nres[k]
 			cands[i].Native = &r
+		}
+		for _, rp := range reps {
+			for j := 0; j < rp.n; j++ {
+				r := nres[rp.from+j]
+				if len(r.Failures) > 0 {
+					cands[rp.cand].Native = &r
+					break
+				}
+			}
+		}
+		// data races: replay under the race detector, one candidate at a time
+		for _, i := range raceCands {
+			var cs []nativeCase
+			for j := 0; j < 200; j++ {
+				cs = append(cs, nativeCase{Harness: cands[i].It.Harness, Cfg: cands[i].It.Cfg, Inputs: cands[i].V.Inputs})
+			}
+			_, rout, rerr := nativeRun(cs, true)
+			if rerr != nil && strings.Contains(rout, "DATA RACE") {
+				cands[i].Native = &nativeResult{Failures: []string{cands[i].V.Msg}, End: "race", Panic: raceExcerpt(rout)}
+			}
 		}
 		for k, s := range samples {
 			r := nres[len(chosen)+k]
@@ -705,6 +744,19 @@ func crossCheck(scripts []vexec.ObligationScript, tier string, seed int) (int, [
 	wg.Wait()
 	os.RemoveAll(wd)
 	return checked, disagree
+}
+
+func raceExcerpt(out string) string {
+	i := strings.Index(out, "WARNING: DATA RACE")
+	if i < 0 {
+		return ""
+	}
+	ex := out[i:]
+	lines := strings.Split(ex, "\n")
+	if len(lines) > 14 {
+		lines = lines[:14]
+	}
+	return strings.Join(lines, "\n")
 }
 
 func firstLine(s string) string {
